@@ -263,6 +263,8 @@ def random_case(rng):
         opts["stale_hidden"] = True       # missing nodes keep stale coordinates, flagged not visible
     if rng.random() < 0.35 and not opts.get("two_videos"):      # (the second embedded video is a stand-in that cannot be copied: it is never opened)
         opts["separate_files"] = True     # predictions loaded from another file: equal but distinct Video objects, other video order
+    if rng.random() < 0.25:
+        opts["edited_between"] = True     # predictions moved, evaluated, moved back - then the judged evaluation
     if rng.random() < 0.3:
         opts["sparse_frames"] = True      # frame numbers 5, 8, 11, ... (labels, not positions)
     if rng.random() < 0.3:
